@@ -93,7 +93,8 @@ def script_events(t, modname='vtw.tests', nth=1):
         else:
             base = '%s (%s)' % (dn.split('.')[-1], '.'.join(dn.split('.')[:-1]))
         return [('F', base)] if s == 'fail' else []
-    base = 'test_%s (%s.T_%s.test_%s)' % (t['n'], modname, t.get('shcls') or t['n'], t['n'])
+    mn = t.get('mn', t['n'])
+    base = 'test_%s (%s.T_%s.test_%s)' % (mn, modname, t.get('shcls') or t['n'], mn)
     if s in ('pass', 'xfail', 'leave_replaced', 'warnfilter', 'swap_pass', 'settrace', 'chdir'):
         return []
     if s == 'sub_skip':
@@ -191,6 +192,13 @@ class Truth:
                 return 'fault %s.%s has no matching entry in %s' % (l, p, got)
             rest.remove(hit)
         return None
+
+
+def asciify(name):
+    """A name as it survives a child whose stderr is not UTF-8: every run of
+    non-ASCII (or replacement) characters becomes one '?'."""
+    import re
+    return re.sub(r'[^\x00-\x7f]+', '?', name)
 
 
 def split_names(names):
